@@ -3,6 +3,7 @@
 Each predicate takes (stream, case, detail) of a failing case and says whether the failure is
 that recorded finding.  A failure no predicate claims is a VIOLATION.
 """
+from fractions import Fraction
 
 
 def _desc(edges, srcs):
@@ -20,6 +21,9 @@ def c13_multi_do_descendant_parent(stream, case, detail):
     """CausalInference.query with several do-variables where a parent (outside the do-set) of one
     do-variable is a descendant of another: the parents-as-adjustment-set formula is not valid there."""
     if stream != "query" or "X" not in case:
+        return False
+    # claimed only when the implementation's answer IS the parents-as-adjustment-set formula (computed by the stream from the model joint)
+    if not (isinstance(detail, dict) and detail.get("adjustment_set") is None and detail.get("equals_parent_adjustment") is True):
         return False
     X = [x for x, _ in case["X"]]
     if len(X) < 2:
@@ -104,7 +108,8 @@ def c18_closure_contraction(stream, case, detail):
 def c18_minimal_imap(stream, case, detail):
     """JointProbabilityDistribution.minimal_imap adds the union of all 'working' subsets (or nothing): the result is in general
     not an I-map.  The whole function is affected (its unit test pins the wrong graphs)."""
-    return stream == "imap" and isinstance(detail, str) and detail.startswith("minimal_imap(")
+    return stream == "imap" and isinstance(detail, dict) and detail.get("msg", "").startswith("minimal_imap(") \
+        and detail.get("equals_union_of_working_subsets") is True     # the graph IS the one that loop builds (computed by the stream)
 
 
 # ----------------------------------------------------------------------------- C17
@@ -147,34 +152,53 @@ def c17_multi_slice_query(stream, case, detail):
 def c19_pearsonr_no_intercept(stream, case, detail):
     """pearsonr(X, Y, Z) regresses X and Y on Z without an intercept: with a non-empty Z the result is not the Pearson
     test on (intercept) regression residuals and changes when any variable is shifted"""
-    return stream == "pearsonr" and case.get("nz", 0) > 0 and isinstance(detail, dict) and detail.get("kind") in ("reference", "affine")
+    return stream == "pearsonr" and case.get("nz", 0) > 0 and isinstance(detail, dict) and detail.get("kind") in ("reference", "affine") \
+        and detail.get("equals_no_intercept") is True      # the numbers ARE the no-intercept regression's (computed by the stream)
 
 
 # ----------------------------------------------------------------------------- C10
+def _bds_as_implemented(cols, ess):
+    """BDsScore.local_score as it stands: alpha = ess / q_observed but beta = ess / (q_all * r), plus a term
+    -(q_all - q_observed) * lgamma(alpha) for the unobserved configurations"""
+    import math
+    q_all = len(cols)
+    r = len(cols[0])
+    obs = [c for c in cols if sum(c) > 0]
+    q_obs = len(obs)
+    if q_obs == 0:
+        return None
+    alpha = ess / q_obs
+    beta = ess / (q_all * r)
+    tot = 0.0
+    for c in obs:
+        tot += sum(math.lgamma(n + beta) - math.lgamma(beta) for n in c)
+        tot -= math.lgamma(sum(c) + alpha) - math.lgamma(alpha)
+    tot -= (q_all - q_obs) * math.lgamma(alpha)
+    return tot
+
+
 def c10_bds_unobserved_config(stream, case, detail):
     """BDsScore with a parent configuration that never occurs in the data: beta is computed from all q configurations instead
-    of the observed ones (and the alpha / beta adjustment terms follow), so the score differs from Scutari's closed form"""
+    of the observed ones (and the alpha / beta adjustment terms follow), so the score differs from Scutari's closed form.
+    Claimed only when the implementation's number IS the number that formula gives (local and network scores)."""
+    import math
     if case.get("kind") != "bds" and case.get("method") != "bds":
         return False
-    rows = case["rows"]
-    n = len(case["cols"])
-    if case.get("pass_state_names"):
-        card = case["card"]
-    else:
-        card = [len({r[v] for r in rows}) for v in range(n)]
-
-    def unobserved(parents):
-        if not parents:
+    if stream in ("local", "network") and isinstance(detail, dict) and "impl" in detail:
+        try:
+            ess = float(Fraction(case["ess"]))
+            tot = 0.0
+            for cols in detail["locals"]:
+                v = _bds_as_implemented(cols, ess)
+                if v is None:
+                    return False
+                tot += v
+            if detail.get("nedges") is not None:
+                n = detail["nnodes"]
+                tot += -(detail["nedges"] + n * (n - 1) / 2.0) * math.log(2.0)
+            return abs(detail["impl"] - tot) <= 1e-6 * max(1.0, abs(tot)) and any(any(sum(c) == 0 for c in cols) for cols in detail["locals"])
+        except Exception:
             return False
-        q = 1
-        for p in parents:
-            q *= card[p]
-        return len({tuple(r[p] for p in parents) for r in rows}) < q
-    if stream == "local":
-        return unobserved(case["parents"])
-    if stream in ("network", "equivalence", "hc_blackbox"):
-        edges = case["edges"] + case.get("edges2", [])
-        return any(unobserved([u for u, w in edges if w == v]) for v in range(n))
     return False
 
 
@@ -182,5 +206,9 @@ def c10_bds_unobserved_config(stream, case, detail):
 def c14_to_factor_graph(stream, case, detail):
     """MarkovNetwork.to_factor_graph builds string factor nodes ('phi_A_B'); the resulting FactorGraph fails its own
     check_model (and the name construction raises TypeError for non-string variables)"""
-    return stream == "mn" and case.get("target") == "fg" and isinstance(detail, str) and \
-        ("to_factor_graph(): target fails its own check_model" in detail or "expected str instance" in detail)
+    if stream != "mn" or case.get("target") != "fg":
+        return False
+    if isinstance(detail, dict):
+        # claimed only when the string factor nodes are the ONLY thing wrong with the converted graph (computed by the stream)
+        return "to_factor_graph(): target fails its own check_model" in detail.get("msg", "") and detail.get("only_string_factor_nodes") is True
+    return isinstance(detail, str) and "expected str instance" in detail and "TypeError" in detail
